@@ -418,7 +418,7 @@ Lemma seval_calln cf f a xs b fr g : seval cf funs clos vs fn (ECallN f a xs b) 
                   | Some (o, g') => Res o fr g'
                   | None => Fuel
                   end
-              | None => Res (EX (err "argument not passed")) fr g
+              | None => Res (EX (VErr "argument not passed")) fr g
               end
           | Res (inr x) fr g => Res (EX x) fr g
           | Fuel => Fuel
@@ -439,7 +439,7 @@ Lemma seval_nargs_cons cf ok xs seen e r fr g : seval_nargs cf funs clos vs fn o
       match seval cf funs clos vs fn e fr g with
       | Res (EV v) fr g =>
           if ok x seen then seval_nargs cf funs clos vs fn ok xr (seen ++ [(x, v)])%list r fr g
-          else Res (inr (err "named parameter")) fr g
+          else Res (inr (VErr "named parameter")) fr g
       | Res (EX w) fr g => Res (inr w) fr g
       | Fuel => Fuel
       end
